@@ -108,7 +108,7 @@ def run(ctx):
             n += 1
             g = np.asarray(got).ravel()
             gt = tuple((int(round(float(np.real(c)))), int(round(float(np.imag(c))))) for c in g)
-            exact = len(g) == len(s) and np.allclose(g, [complex(a, b) for a, b in gt], atol=1e-6)
+            exact = len(g) == len(s) and core.allclose(g, [complex(a, b) for a, b in gt], atol=1e-6)
             if not exact or gt not in ok:
                 r.violations.append(core.Violation(["SPEC"], "leja", dict(key, variant=lab),
                                                    "leja(%s roots %s) = %s is not a behaviour of Leja.tla (%d admissible orderings, e.g. %s)" % (lab, s, list(g), len(ok), sorted(ok)[0]), {}))
